@@ -9,8 +9,16 @@ import (
 )
 
 type funcModel struct {
-	w func(ft *FT) []string
+	wc func(ft *FT, c *ssa.CallCommon) []string
+	w  func(ft *FT) []string
 	f func(ft *FT, st *State, guard Term, c *ssa.CallCommon, args []Term, pos token.Pos) []Term
+}
+
+func (m *funcModel) writesCall(ft *FT, c *ssa.CallCommon) []string {
+	if m.wc != nil {
+		return m.wc(ft, c)
+	}
+	return m.writes(ft)
 }
 
 func (m *funcModel) writes(ft *FT) []string {
@@ -141,11 +149,17 @@ func registerModels(e *Engine) {
 					if v := lockArg(c); v != nil {
 						ft.lockAcquire(st, guard, v, pos)
 					}
+					if ft.afterLock == nil {
+						ft.afterLock = st.clone()
+					}
 				case "rlock":
 					ft.oblige("lock-reentry", pos, "", guard, not(eq(app("select", h, l), "2")), lockDiscipline)
 					ft.set(st, hk, app("store", h, l, "1"))
 					if v := lockArg(c); v != nil {
 						ft.lockAcquire(st, guard, v, pos)
+					}
+					if ft.afterLock == nil {
+						ft.afterLock = st.clone()
 					}
 				case "unlock":
 					ft.oblige("unlock-held", pos, "", guard, eq(app("select", h, l), "2"), lockDiscipline)
@@ -198,6 +212,40 @@ func registerModels(e *Engine) {
 	e.models["(time.Time).IsZero"] = &funcModel{f: func(ft *FT, st *State, guard Term, c *ssa.CallCommon, args []Term, pos token.Pos) []Term {
 		return []Term{eq(args[0], "0")}
 	}}
+	// sync/atomic: the addressed cell gets an arbitrary value (other goroutines interfere); nothing else changes
+	atomicModel := func(writes bool) *funcModel {
+		return &funcModel{
+			wc: func(ft *FT, c *ssa.CallCommon) []string {
+				if !writes || len(c.Args) == 0 {
+					return nil
+				}
+				return ft.foreignKeysOfAddr(c.Args[0])
+			},
+			f: func(ft *FT, st *State, guard Term, c *ssa.CallCommon, args []Term, pos token.Pos) []Term {
+				sig := c.Signature()
+				if writes && len(c.Args) > 0 {
+					l := ft.locOf(c.Args[0])
+					nv := ft.fresh("atomic", ft.d.sortOf(l.typ))
+					ft.assume("true", ft.typeInv(nv, l.typ, st))
+					ft.store(st, l, nv)
+				}
+				var rs []Term
+				for i := 0; i < sig.Results().Len(); i++ {
+					rt := sig.Results().At(i).Type()
+					r := ft.fresh("atomic", ft.d.sortOf(rt))
+					ft.assume("true", ft.typeInv(r, rt, st))
+					rs = append(rs, r)
+				}
+				return rs
+			},
+		}
+	}
+	for _, n := range []string{"AddInt32", "AddInt64", "AddUint32", "AddUint64", "StoreInt32", "StoreInt64", "StoreUint32", "StoreUint64", "SwapInt32", "SwapInt64", "CompareAndSwapInt32", "CompareAndSwapInt64", "CompareAndSwapUint32", "CompareAndSwapUint64"} {
+		e.models["atomic."+n] = atomicModel(true)
+	}
+	for _, n := range []string{"LoadInt32", "LoadInt64", "LoadUint32", "LoadUint64"} {
+		e.models["atomic."+n] = atomicModel(false)
+	}
 	e.models["time.Since"] = &funcModel{
 		w: func(ft *FT) []string { ft.keySort("$clock", "Int"); return []string{"$clock"} },
 		f: func(ft *FT, st *State, guard Term, c *ssa.CallCommon, args []Term, pos token.Pos) []Term {
